@@ -5,13 +5,13 @@ package main
 // (Vector), sizing function (lenVec).
 
 import (
-	"os"
 	_ "embed"
 	"encoding/json"
 	"fmt"
 	"go/ast"
 	"go/token"
 	"go/types"
+	"os"
 	"sort"
 	"strings"
 )
